@@ -20,9 +20,10 @@ run=$(grep -ho 'func Test[A-Za-z0-9_]*' $demo 2>/dev/null | sed 's/func //' | so
 pkgs=$(for f in $demo; do echo "./$(dirname $f)"; done | sort -u | tr '\n' ' ')
 echo "== demo tests: $run in $pkgs"
 go test -vet=off -count=1 -run "^($run)\$" $pkgs > /tmp/seed-with.log 2>&1; with=$?
-git stash push -q -- $changed
+# (no git stash: refs/stash is shared by all worktrees of a repository)
+git apply -R "$dst/patch.diff"
 go test -vet=off -count=1 -run "^($run)\$" $pkgs > /tmp/seed-without.log 2>&1; without=$?
-git stash pop -q
+git apply "$dst/patch.diff"
 echo "== demo with change: exit $with ; without change: exit $without"
 # suite with the change, demo moved aside
 mkdir -p /tmp/seed-aside-$$; for f in $demo; do mv "$f" /tmp/seed-aside-$$/$(echo $f | tr '/' '_'); done
